@@ -48,15 +48,33 @@ def step (s : DSt) (line : String) : DSt × String :=
       (s, s!"seen off={e.off} ts={e.ts} ty={e.ty} data={showNatList e.data} opt={e.opt} calls={showCalls r.calls} errh={showCalls r.errCalls}")
   | ["replay", off, ts, ty, d, opt] =>
     if d.endsWith "!" then
-      -- the stored payload is a JSON value followed by garbage: a typed upcaster (registered with RegisterUpcast: both names
-      -- are Go types, it returns its declared target, does not fail, and is not one of the racing raw ones) cannot decode
-      -- it, so its step fails; raw upcasters are not used on such events by the generator
+      -- the stored payload is a JSON value followed by garbage.  A typed upcaster (registered with RegisterUpcast: both
+      -- names are Go types, it returns its declared target, does not fail, and is not one of the racing raw ones) cannot
+      -- decode it, so its step fails before the function is called.  A RAW upcaster is handed the bytes as they are; the
+      -- harness's raw functions decode leniently (no tags, no optional part), so from a raw first step on the chain
+      -- goes on over well-formed data, and only a failure of that first step still concerns the garbage
       let typed (u : Upcaster) : Bool := decide (u.src ≥ 100) && decide (u.dst ≥ 100) && u.ret == u.dst && !u.fails && decide (u.tag < 200)
-      let g' := s.g.map (fun u => if typed u then { u with fails := true } else u)
       let dd := d.dropRight 1
-      let (e, r) := upcastStored g' s.errH ⟨nat! off, nat! ts, nat! ty, natList dd, nat! opt⟩
       let showD (l : List Nat) : String := showNatList l ++ "!"
-      (s, s!"seen off={e.off} ts={e.ts} ty={e.ty} data={showD e.data} opt={e.opt} calls=- errh={if r.errCalls.isEmpty then "-" else ";".intercalate (r.errCalls.map fun (t, dl) => s!"{t}:{showD dl}")}")
+      let first := s.g.find? (fun u => u.src == nat! ty)
+      match first with
+      | some u0 =>
+        if typed u0 then
+          let g' := s.g.map (fun u => if typed u then { u with fails := true } else u)
+          let (e, r) := upcastStored g' s.errH ⟨nat! off, nat! ts, nat! ty, natList dd, nat! opt⟩
+          (s, s!"seen off={e.off} ts={e.ts} ty={e.ty} data={showD e.data} opt={e.opt} calls=- errh={if r.errCalls.isEmpty then "-" else ";".intercalate (r.errCalls.map fun (t, dl) => s!"{t}:{showD dl}")}")
+        else
+          let (e, r) := upcastStored s.g s.errH ⟨nat! off, nat! ts, nat! ty, [], 0⟩
+          let s := if r.calls.any (fun c => c.1 ≥ 200) then { s with g := clear s.g } else s
+          let errS := if r.errCalls.isEmpty then "-" else ";".intercalate (r.errCalls.map fun (t, dl) =>
+            if t == nat! ty then s!"{t}:{showD (natList dd)}" else s!"{t}:{showNatList dl}")
+          if e.ty == nat! ty then
+            -- the chain failed (the original event, garbage and all, is what the callback sees)
+            (s, s!"seen off={e.off} ts={e.ts} ty={e.ty} data={showD (natList dd)} opt={nat! opt} calls={showCalls r.calls} errh={errS}")
+          else
+            (s, s!"seen off={e.off} ts={e.ts} ty={e.ty} data={showNatList e.data} opt={e.opt} calls={showCalls r.calls} errh={errS}")
+      | none =>
+        (s, s!"seen off={off} ts={ts} ty={ty} data={showD (natList dd)} opt={opt} calls=- errh=-")
     else
     let s := { s with last := some ⟨nat! off, nat! ts, nat! ty, natList d, nat! opt⟩ }
     let (e, r) := upcastStored s.g s.errH ⟨nat! off, nat! ts, nat! ty, natList d, nat! opt⟩
